@@ -9,7 +9,7 @@ func init() {
 		ID: "C01", Level: "exploration", PanicClause: "C01.no_panic",
 		Cases: func(tier string) int {
 			if tier == "quick" {
-				return 10000
+				return 20000
 			}
 			return 600000
 		},
